@@ -79,7 +79,12 @@ class C13:
             rng.shuffle(deps)
             if extra_dangling is not None and extra_dangling[0] == i:
                 deps.insert(rng.randint(0, len(deps)), extra_dangling[1])
-            nodes.append({"id": idperm[i], "deps": deps})
+            # non-libcnb dependencies interleaved in package.toml: they must neither become edges nor hide later ones
+            noise = []
+            if rng.random() < 0.5:
+                for _ in range(rng.randint(1, 2)):
+                    noise.append([rng.randint(0, len(deps)), rng.choice(["docker://reg/img:1", "../vendored/x", "urn:cnb:registry:heroku/y", "./local"])])
+            nodes.append({"id": idperm[i], "deps": deps, "noise": noise})
         return {"nodes": nodes, "root_lists": [[idperm[r] if r < n else r for r in rl] for rl in root_lists]}
 
     def gen(self, rng, tier):
@@ -155,7 +160,7 @@ class C13:
             for k, n in enumerate(c["nodes"]):
                 for j in range(len(n["deps"])):
                     nodes = [dict(x) for x in c["nodes"]]
-                    nodes[k] = {"id": n["id"], "deps": n["deps"][:j] + n["deps"][j + 1:]}
+                    nodes[k] = {"id": n["id"], "deps": n["deps"][:j] + n["deps"][j + 1:], "noise": n.get("noise", [])}
                     yield {"nodes": nodes, "root_lists": rls}
 
     def sample(self, c, o):
